@@ -16,6 +16,7 @@ pub const OP_SET: u8 = 3;
 pub const OP_RESET: u8 = 4;
 pub const OP_PROBE: u8 = 5;
 pub const OP_OBSERVE: u8 = 6;
+pub const OP_POLL_RACE: u8 = 7;
 
 pub const CL_LATCHED_READY_WHILE_RESET: u32 = 0;
 pub const CL_SET_WITH_TWO_PENDING: u32 = 1;
@@ -28,6 +29,7 @@ pub const CL_SET_WITH_THREE_PENDING: u32 = 7;
 pub const CL_WAKER_SWAPPED_THEN_SET: u32 = 8;
 pub const CL_PROBE: u32 = 9;
 pub const CL_RESET_WITH_PENDING: u32 = 10;
+pub const CL_RACING_SET: u32 = 11;
 
 const CLASS_NAMES: &[&str] = &[
     "latched-waiter-completes-after-reset",
@@ -41,6 +43,7 @@ const CLASS_NAMES: &[&str] = &[
     "waker-swapped-then-set",
     "probe",
     "reset-with-pending",
+    "poll-racing-with-set",
 ];
 
 impl World for EventWorld {
@@ -66,6 +69,9 @@ impl World for EventWorld {
                 v.push(Cfg { flavour, mode: 0, x, y: 0, k, sw: 0 });
             }
         }
+        for x in [0u8, 1] {
+            v.push(Cfg { flavour: FL_CHECKED, mode: 0, x, y: 1, k, sw: 0 });
+        }
         v
     }
     fn enum_configs(&self, tier: Tier) -> Vec<(Cfg, usize)> {
@@ -82,6 +88,8 @@ impl World for EventWorld {
             spec("reset", 10, 0, 0),
             spec("probe_after_done", 1, cfg.k, 0),
             spec("observe", 1, 0, 0),
+            // poll while another thread calls set() at the first instant the internal lock is free
+            spec("poll_racing_set", if cfg.y == 1 { 12 } else { 0 }, cfg.k, 2),
         ]
     }
     fn run(&self, cfg: &Cfg, ops: &[Op], run: &mut Run) {
@@ -102,7 +110,7 @@ impl World for EventWorld {
         }
     }
     fn cfg_desc(&self, cfg: &Cfg) -> String {
-        format!("event flavour={} initially_set={} slots={}", flavour_name(cfg.flavour), cfg.x == 1, cfg.k)
+        format!("event flavour={} initially_set={} slots={}{}", flavour_name(cfg.flavour), cfg.x == 1, cfg.k, if cfg.y == 1 { " racing-set" } else { "" })
     }
     fn class_names(&self) -> &'static [&'static str] {
         CLASS_NAMES
@@ -203,6 +211,54 @@ fn run_m<M: RawMutex>(cfg: &Cfg, ops: &[Op], run: &mut Run) {
                             }
                         }
                         None => {}
+                    }
+                }
+                None => run.noops += 1,
+            },
+            OP_POLL_RACE if cfg.y == 1 && cfg.flavour == FL_CHECKED => match next_where(&slots, op.a, |s| s.pollable()) {
+                Some(s) => {
+                    unsafe fn inject<M: RawMutex>(ctx: usize) {
+                        (*(ctx as *const GenericManualResetEvent<M>)).set();
+                    }
+                    let first = !slots[s].polled;
+                    // verdict before the racing set() takes effect
+                    let predict_ready = if first { model_set } else { slots[s].flag };
+                    tls::install_unlock_hook(&event as *const GenericManualResetEvent<M> as usize, inject::<M>);
+                    let r = slots[s].poll(op.b, run);
+                    let (fired, relocked) = tls::remove_unlock_hook();
+                    if !fired && !run.failed() {
+                        // the poll never released the internal lock: the other thread's call comes after it
+                        run.call("set()", || event.set());
+                    }
+                    run.class(CL_RACING_SET);
+                    match r {
+                        Some(Poll::Ready(())) => {
+                            run.note(|| format!("poll slot {} waker {} racing with set() -> Ready (set() ran inside the poll: {}, poll locked again afterwards: {})", s, op.b, fired, relocked));
+                            // a poll that looks at the event again after the set() may see it
+                            if !predict_ready && !relocked {
+                                run.violate("C14", "completed-without-set", format!("slot {} completed although the event was not set when the poll looked at it", s));
+                            }
+                        }
+                        Some(Poll::Pending) => {
+                            run.note(|| format!("poll slot {} waker {} racing with set() -> Pending (set() ran inside the poll: {}, poll locked again afterwards: {})", s, op.b, fired, relocked));
+                            if predict_ready {
+                                run.violate("C14", "set-missed", format!("slot {} returned Pending although the event was set before this poll", s));
+                            }
+                        }
+                        None => {}
+                    }
+                    model_set = true;
+                    for s in slots.iter_mut() {
+                        if s.pending() {
+                            s.flag = true;
+                        }
+                    }
+                    // whichever way the two calls interleaved: the event is set now, so every pending
+                    // waiter - the racing one included - has been woken through its latest waker
+                    for (j, s) in slots.iter().enumerate() {
+                        if s.pending() && !s.woken() && !run.failed() {
+                            run.violate("C14", "set-did-not-wake", format!("after a set() that raced with the poll of slot {}, slot {} is pending and has not been woken through its latest waker", op.a, j));
+                        }
                     }
                 }
                 None => run.noops += 1,
